@@ -505,8 +505,12 @@ func (q *checker) bcheckAssignment(lhs *a.Expr, op t.ID, rhs *a.Expr) error {
 					return nil, nil
 				}
 				// Drop any old facts involving an element of a slice: the
-				// slice may alias storage that the callee modifies.
-				if mentionsSliceElement(x) {
+				// slice may alias storage that the callee modifies. Likewise
+				// for elements of the receiver's own storage ("x[i ..].foo!()"
+				// modifies x) and, when the receiver is an io_writer, for any
+				// element (the writer may be bound to any array or slice).
+				if mentionsSliceElement(x) || mentionsElementOf(x, containerRoot(recv)) ||
+					((recv.MType() != nil) && recv.MType().Eq(typeExprIOWriter) && mentionsAnyElement(x)) {
 					return nil, nil
 				}
 				// Drop any facts involving a pass-by-reference argument.
@@ -519,7 +523,8 @@ func (q *checker) bcheckAssignment(lhs *a.Expr, op t.ID, rhs *a.Expr) error {
 					// TODO: take extra care if v is a slice? For example,
 					// facts involving "v.length()" aren't affected by passing
 					// v to an impure function.
-					if x.Mentions(v) {
+					if x.Mentions(v) || mentionsElementOf(x, containerRoot(v)) ||
+						(v.MType().Eq(typeExprIOWriter) && mentionsAnyElement(x)) {
 						return nil, nil
 					}
 				}
@@ -2003,6 +2008,18 @@ func containerRoot(n *a.Expr) *a.Expr {
 		n = n.LHS().AsExpr()
 	}
 	return n
+}
+
+// mentionsAnyElement returns whether x contains an index expression.
+func mentionsAnyElement(x *a.Expr) bool {
+	found := false
+	x.AsNode().Walk(func(o *a.Node) error {
+		if !found && (o.Kind() == a.KExpr) && (o.AsExpr().Operator() == a.ExprOperatorIndex) {
+			found = true
+		}
+		return nil
+	})
+	return found
 }
 
 // mentionsSliceElement returns whether x contains an index expression over a
